@@ -1,4 +1,5 @@
 """C14 --override-item / --add-item / --remove-item equal editing the file by hand."""
+import re
 import itertools
 
 from symx import xhrun
@@ -39,7 +40,8 @@ EDITS = [
   (["--remove-item", "Pair:B-B", "--add-item", "Pair:B - B=as.polynomial 0 1"], lambda t: t.replace("B-B : f 2.0", "B-B : as.polynomial 0 1")),
   (["--override-item", "Pair:A-B=as.zero", "--override-item", "Pair:A-B=as.polynomial 1 2"], lambda t: t.replace("A-B : as.buck 1000.0 0.3 10.0", "A-B : as.polynomial 1 2")),
   (["--remove-item", "Potential-Form:f(r, A)", "--override-item", "Pair:B-B=as.zero"], lambda t: t.replace("B-B : f 2.0", "B-B : as.zero").replace("[Potential-Form]\nf(r, A) : A/r\n", "")),
-  (["--add-item", "Pair:C-C=as.constant 1.0", "--add-item", "Tabulation:dr=0.5", "--remove-item", "Tabulation:nr"], lambda t: t.replace("B-B : f 2.0", "B-B : f 2.0\nC-C : as.constant 1.0").replace("nr : 5\n", "dr : 1.5\n").replace("dr : 1.5", "dr : 0.5")),
+  # (0.8 gives the eight rows DL_POLY accepts with nr : 8 removed; the other targets take any count)
+  (["--add-item", "Pair:C-C=as.constant 1.0", "--add-item", "Tabulation:dr=0.8", "--remove-item", "Tabulation:nr"], lambda t: re.sub(r"nr : \d+\n", "dr : 0.8\n", t.replace("B-B : f 2.0", "B-B : f 2.0\nC-C : as.constant 1.0"), count=1)),
   (["--override-item", "Pair:Z-Z=as.zero"], None),      # must be refused
   (["--add-item", "Pair:A - B=as.zero"], None),          # must be refused
   (["--remove-item", "Pair:Z-Z"], None),                 # must be refused
